@@ -350,27 +350,11 @@ impl LevelManifest {
 			}
 		}
 
-		// If we have multiple tables, check sequence continuity across all tables
-		if tables.len() > 1 {
-			for i in 0..tables.len() - 1 {
-				let current = &tables[i];
-				let next = &tables[i + 1];
-
-				// Check if sequence numbers maintain continuity
-				if let (Some(next_smallest), Some(current_largest)) =
-					(next.meta.smallest_seq_num, current.meta.largest_seq_num)
-				{
-					if next_smallest <= current_largest {
-						return Err(Error::LoadManifestFail(format!(
-							"Level {} tables have overlapping sequence numbers: Table {} ({:?}-{:?}) and Table {} ({:?}-{:?})",
-							level_idx,
-							current.id, current.meta.smallest_seq_num, current.meta.largest_seq_num,
-							next.id, next.meta.smallest_seq_num, next.meta.largest_seq_num
-						)));
-					}
-				}
-			}
-		}
+		// Tables of one level (L1 and deeper) are ordered by key range, not by age: a
+		// compaction can install a table of new entries in front of (or behind) an older
+		// table with a disjoint key range, so the sequence ranges of key-adjacent tables
+		// carry no ordering that could be validated here.
+		let _ = level_idx;
 
 		Ok(())
 	}
